@@ -103,6 +103,16 @@ CLAIMED = {
             'custom / missing node types and generics; DAG snapshot before/after.',
             'Trusted: Lean kernel (+propext, Classical.choice, Quot.sound); the hand-written model of visualization/dag.py; inspect-derived '
             'strings are opaque inputs; importlib_resources / distutils are stubbed (only copy_resources uses them).', '§6 C20'),
+    'C17': ('Lean 4 theorems (Sem ignores modes; the engine model differs between modes only in suspension; missing pool fails fast) '
+            '+ lock-step under mode assignments and pool states + real-pool differential',
+            'Proof: the specification Sem yields the same outcome under every assignment of execution modes '
+            '(C17_semantics_ignores_mode, by induction through the evaluator); in the engine model the mode decides only whether the task '
+            'suspends while the body runs — the outcome handed to the retry policy is the same (C17_mode_changes_only_the_suspension); a '
+            'needed pool that is not ready makes the run end with an error result before anything is spawned '
+            '(C17_missing_pool_fails_fast). Partial: engine outcome = Sem for all modes is C01 (tied and monitored, not yet a theorem). '
+            'Tie: 4 mode assignments per program on virtual executors in lock-step, 5 broken pool-registry states (also after a good '
+            'run), and REAL thread/process pools whose outcome is compared with Sem (that last part is differential testing).',
+            SCHED_NOTE, '§6 C17'),
     'C18': (
         'Lean 4 refinement proof (model refines write-once map) + differential correspondence on op sequences',
         'Proof: MLPE.Store (model of FileSystemArtifactStore after the fix commit) refines a write-once finite map keyed by '
